@@ -349,6 +349,19 @@ def dw_strategy(tier):
     return s()
 
 
+def dw_fixed_cases():
+    """a small systematic family that every run contains: each coarsening version with lmax - lmin = 2 under the two
+    decision patterns that produce dimensions refined to different depths (target point; one interval per step)"""
+    cases = []
+    for version in (2, 3, 6, 7, 8):
+        for mode, tape in ((9, [24, 57, 24]), (9, [27, 8]), (9, [63, 13, 63]), (5, [40, 9])):
+            for boundary in (True, False):
+                cases.append(dict(kind="dw", dim=2, lmin=1, lmax=3, a=[0.0, 0.0], b=[1.0, 1.0], version=version, rebalancing=False,
+                                  boundary=boundary, margin=0.9, safety=0.1, maxev=500, maxsteps=8, tape=tape, mode=mode,
+                                  fseed=version * 10 + mode, legs=None, rerun=None))
+    return cases
+
+
 def dwm_strategy(tier):
     @st.composite
     def s(draw):
@@ -382,7 +395,7 @@ def selftest():
 
 
 SUBS = [
-    Sub("dw", dw_strategy, run_dw, dict(quick=350, thorough=8000), budget_s=dict(quick=40, thorough=600)),
+    Sub("dw", dw_strategy, run_dw, dict(quick=350, thorough=8000), budget_s=dict(quick=40, thorough=600), fixed_cases=dw_fixed_cases),
     Sub("dw_modified", dwm_strategy, run_dw_modified, dict(quick=160, thorough=3000), budget_s=dict(quick=25, thorough=400)),
     Sub("es", es_strategy, run_es, dict(quick=160, thorough=4000), budget_s=dict(quick=40, thorough=600)),
     Sub("cell", cell_strategy, run_cell, dict(quick=200, thorough=4000), budget_s=dict(quick=25, thorough=400)),
